@@ -52,8 +52,15 @@ MUTANTS = [
     ("C12-late-binding", "C12", "compiler.py", "                            closure(insn, addr, state)\n", "                            closure(insn, None, None)\n", 1),
     ("C12-skip-backward-allowed", "C12", "compiler.py", "                                    if length < 0:", "                                    if length < -2:", 1),
     ("C16-repeat-addr", "C02", "metacommands.py", "        if isinstance(chunk, BaseDeferred):\n            addr += chunk.length()\n        else:\n            addr += len(chunk)\n        result += chunk", "        result += chunk", 1),
+    ("C03-extern-before-own", "C03", "types.py", "            not_ready()\n            extern = compiler.symbols.get(extern_mapping[1])", "            extern = compiler.symbols.get(extern_mapping[1])", 1),
+    ("C03-eager-assignment", "C03", "compiler.py", "self.symbols[name] = (insn, Deferred[int](lambda: insn.value.resolve(state), insn.target.name))", "self.symbols[name] = (insn, insn.value.resolve(state))", 1),
+    ("C11-no-scope-bump", "C11", "compiler.py", "                    if not insn.local:\n                        local_symbol_prefix = f\".local{self.next_local_symbol_prefix}.\"\n                        self.next_local_symbol_prefix += 1", "                    if not insn.local:\n                        self.next_local_symbol_prefix += 1", 1),
+    ("C11-duplicate-overwrites", "C11", "compiler.py", "                (prev_sym.ctx_start, prev_sym.ctx_end, \"A symbol with the same name has been already declared here\")\n            )\n            return\n\n        self.symbols[name] = (label, addr)", "                (prev_sym.ctx_start, prev_sym.ctx_end, \"A symbol with the same name has been already declared here\")\n            )\n\n        self.symbols[name] = (label, addr)", 1),
+    ("C11-private-leak", "C11", "types.py", "        not_ready()\n        # TODO: check if there's a local symbol", "        for _k, (_ok, _v) in compiler.symbols.container.items():\n            if _k.endswith(\".\" + self.name.lower()):\n                return _v\n        not_ready()\n        # TODO: check if there's a local symbol", 1),
+    ("C11-extern-key", "C11", "compiler.py", 'self.extern_symbols_mapping[name] = location, state["internal_symbol_prefix"] + name', 'self.extern_symbols_mapping[name] = location, name', 1),
     # negative controls: semantically neutral edits, every check must stay green
     ("NEG-rename-local", "C06", "metacommand_impl.py", "    value = wait(arg_token.resolve(state))\n\n    if not isinstance(value, int):", "    value = wait(arg_token.resolve(state))\n    _unused = 1\n\n    if not isinstance(value, int):", 0),
+    ("NEG-candidate-order", "C03", "types.py", "            state[\"local_symbol_prefix\"] + self.name,\n            state[\"internal_symbol_prefix\"] + self.name\n", "            state[\"internal_symbol_prefix\"] + self.name,\n            state[\"local_symbol_prefix\"] + self.name\n", 0),
     ("NEG-comment-lines", "C01", "insns.py", "def try_as_register(operand, state):", "# a comment\n\ndef try_as_register(operand, state):", 0),
 ]
 
